@@ -7,6 +7,7 @@ from hypothesis import strategies as st
 from hypothesis.stateful import RuleBasedStateMachine, initialize, rule
 
 from ..common import HarnessError, Violation, hyp_run_machine, import_auditok, lib_guard
+from ..gen import rarely
 from ..oracles import exact_round
 from .c10 import content
 
@@ -31,7 +32,8 @@ RULE = (
     "per sample."
 )
 MUST_HIT = ["div_remainder_multichannel", "div_n_gt_len", "mismatch_sr", "mismatch_sw", "mismatch_ch", "join_3",
-            "mutation_refused", "ragged_refused", "silence", "eq_true", "eq_false", "twin_same_bytes_per_sample"]
+            "mutation_refused", "ragged_refused", "silence", "eq_true", "eq_false", "twin_same_bytes_per_sample", "format_grid",
+            "silence_over_1MiB"]
 ASSUMPTIONS = ["dividing an empty region is not claimed by the statement and not generated"]
 BOUNDS = {"quick": dict(n=200, steps=30), "thorough": dict(n=4000, steps=50)}
 MAXBYTES = 6000
@@ -203,6 +205,8 @@ class Interp:
                     return
             r = auditok.make_silence(d, sr, sw, ch)
             self.classes.add("silence")
+            if n * sw * ch > 2**20:
+                self.classes.add("silence_over_1MiB")
             self.add(r, (b"\0" * (n * sw * ch), sr, sw, ch), 0)
         elif name == "slice":
             a, ma, da = self.pick(op[1])
@@ -251,7 +255,46 @@ class Interp:
             self.deep = True
 
 
+GRID_SR = (7999, 8000, 8001)
+GRID_SW = (1, 2, 4)
+GRID_CH = (1, 2, 15, 16, 17, 32, 255, 256, 257)
+
+
+def check_grid(case, rec):
+    """One format against every other format of the grid: combining regions must raise
+    AudioParameterError exactly when the formats differ (rates one apart, channel counts around
+    16 / 256, all widths); == must be False for different formats even with identical bytes."""
+    a_fmt = tuple(case["grid_fmt"])
+    sr, sw, ch = a_fmt
+    n = 0
+    for sr2 in GRID_SR:
+        for sw2 in GRID_SW:
+            for ch2 in GRID_CH:
+                b_fmt = (sr2, sw2, ch2)
+                # one sample each; same byte content where the sizes allow it
+                size = sw * ch * sw2 * ch2
+                a = auditok.AudioRegion(bytes(size), sr, sw, ch)
+                b = auditok.AudioRegion(bytes(size), sr2, sw2, ch2)
+                same = a_fmt == b_fmt
+                for opname, fn in (("+", lambda: a + b), ("join", lambda: a.join([b])), ("sum", lambda: sum([a, b]))):
+                    try:
+                        res = fn()
+                        raised = False
+                    except AudioParameterError:
+                        raised = True
+                    if raised == same:
+                        raise Violation(
+                            f"{a_fmt} {opname} {b_fmt}: " + ("AudioParameterError although the formats agree" if same
+                                                             else f"no error although the formats differ ({res!r})"), case)
+                if (a == b) != same:
+                    raise Violation(f"regions of formats {a_fmt} and {b_fmt} with identical bytes: == is {a == b}", case)
+                n += 1
+    rec.note(case, True, {"format_grid"}, out={"pairs": n})
+
+
 def check_case(case, rec):
+    if "grid_fmt" in case:
+        return check_grid(case, rec)
     it = Interp(case["cfg"])
     for op in case["ops"]:
         it.apply(op)
@@ -308,6 +351,11 @@ class AlgebraMachine(RuleBasedStateMachine):
     def silence(self, k, eps, f):
         self.it.apply(["silence", k, eps if k or eps >= 0 else 0.0, f])
 
+    @rule(big=rarely(12), k=st.sampled_from([262144, 524287, 524288, 524289, 700000, 1048576, 1048577]))
+    def big_silence(self, big, k):
+        if big:
+            self.it.apply(["silence", k, 0.0, 0])
+
     @rule(i=IDX, a=st.one_of(st.none(), st.integers(-12, 12)), b=st.one_of(st.none(), st.integers(-12, 12)))
     def slice_(self, i, a, b):
         self.it.apply(["slice", i, a, b])
@@ -341,13 +389,28 @@ def explicit_cases():
                              ["add", 0, 1], ["add", 0, 2], ["add", 0, 3], ["join", 0, [0, 3]], ["sum", [0, 2]],
                              ["new", 4, 0, 1, 2.5], ["eq", 0, 4], ["eq", 0, 1], ["twin", 0, 4], ["add", 0, 5], ["eq", 0, 5],
                              ["join", 0, [5]], ["twin", 0, 0]]},
+        {"cfg": {"fmt": [16000, 2, 1]}, "ops": [["silence", 640000, 0.0, 0], ["silence", 524289, 0.5, 0], ["eq", 0, 1]]},
+        {"cfg": {"fmt": [8000, 2, 3]}, "ops": [["silence", 200000, 0.0, 0]]},
     ]
 
 
 def jobs(tier, seed):
     b = BOUNDS[tier]
-    return [{"name": f"sm-{i}", "seed": seed * 1000 + i, "n": b["n"], "steps": b["steps"]} for i in range(16)]
+    out = [{"name": f"grid-{sr}", "kind": "grid", "sr": sr} for sr in GRID_SR]
+    out += [{"name": f"sm-{i}", "kind": "sm", "seed": seed * 1000 + i, "n": b["n"], "steps": b["steps"]} for i in range(16)]
+    return out
 
 
 def run_job(job, rec):
-    hyp_run_machine(sys.modules[__name__], AlgebraMachine, rec, job["seed"], job["n"], job["steps"])
+    mod = sys.modules[__name__]
+    if job["kind"] == "grid":
+        from ..common import run_cases
+
+        run_cases(mod, ({"grid_fmt": [job["sr"], sw, ch]} for sw in GRID_SW for ch in GRID_CH), rec)
+    else:
+        hyp_run_machine(mod, AlgebraMachine, rec, job["seed"], job["n"], job["steps"])
+
+
+def extra_coverage(tier):
+    return {"exhaustive_part": f"every ordered pair of formats from rates {GRID_SR} x widths {GRID_SW} x channel counts {GRID_CH} "
+                               "(6561 pairs) for +, join, sum and ==: error / inequality iff the formats differ"}
